@@ -65,6 +65,31 @@ pub fn generate<W: Write>(c: &mut Cases<W>, rng: &mut Rng, thorough: bool) {
             }
         }
     }
+    // "a known magic number": every reordering of the four bytes of each magic (the byte-swapped ones among
+    // them), every single-bit change, each behind a complete, well-formed record of either size
+    {
+        let perms: [[usize; 4]; 24] = [
+            [0,1,2,3],[0,1,3,2],[0,2,1,3],[0,2,3,1],[0,3,1,2],[0,3,2,1],[1,0,2,3],[1,0,3,2],[1,2,0,3],[1,2,3,0],[1,3,0,2],[1,3,2,0],
+            [2,0,1,3],[2,0,3,1],[2,1,0,3],[2,1,3,0],[2,3,0,1],[2,3,1,0],[3,0,1,2],[3,0,2,1],[3,1,0,2],[3,1,2,0],[3,2,0,1],[3,2,1,0]];
+        for m in [magic1, magic2] {
+            let mut variants: Vec<[u8; 4]> = perms.iter().map(|p| [m[p[0]], m[p[1]], m[p[2]], m[p[3]]]).collect();
+            for bit in 0..32 {
+                let mut v = m;
+                v[bit / 8] ^= 1 << (bit % 8);
+                variants.push(v);
+            }
+            for v in variants {
+                for rec in [17usize, 18, 30] {
+                    for codec in [0u8, 3, 5] {
+                        let mut s = vec![0u8; rec];
+                        s[rec - if rec == 17 { 17 } else { 18 } + 8] = codec;
+                        s.extend_from_slice(&v);
+                        one(c, &s, "magic-variant");
+                    }
+                }
+            }
+        }
+    }
     for _ in 0..(if thorough { 20000 } else { 1500 }) {
         let l = rng.below(65) as usize;
         let mut s: Vec<u8> = (0..l).map(|_| rng.next() as u8).collect();
